@@ -68,6 +68,18 @@ CLAIMED = {
         "'same fit' as digest equality, h5py/HDF5.",
         "Lean 4 proof (invariant over all prefixes of the write sequence; refinement of load) + fault-injection "
         "correspondence on real containers", "DESIGN.md §5 C16"),
+    "C04": (
+        "Machine-checked Lean 4 proof over an arbitrary linearly ordered field about hand models of "
+        "compute_contact_point_weights/residual/_fit: weights in [0,1], zero exactly at the contact point, one "
+        "exactly from the weighting distance on, linear in between; after a successful _fit the 'fit' column is "
+        "the model at the reported parameters on the (k-scaled) segment and NaN elsewhere, 'fit residuals' is "
+        "the weighted difference, chi-square is the sum of squared residuals over the used points; too few "
+        "points => success False and NaN columns. Tied by correspondence at exact rationals on random fits. "
+        "Partial: fixed/bounded/expression parameters are lmfit guarantees, explored by the oracle.",
+        "Trusted: Lean kernel, standard axioms, hand models (sampled correspondence at exact rationals within an "
+        "explicit rounding budget), lmfit; ordered-field theorems do not transfer to IEEE doubles.",
+        "Lean 4 proof over an ordered field (Mathlib) + exact-rational correspondence + implementation oracle",
+        "DESIGN.md §5 C04"),
 }
 
 PENDING_REASON = "check not built yet in this round (planned, see DESIGN.md §8); not claimed until its machinery exists"
